@@ -536,7 +536,7 @@ impl<'a, T: Send> Future for SendFuture<'a, T> {
     loop {
       if this.sender.closed.load(Ordering::Relaxed) || !shared.receivers_alive() {
         if let Some(id) = this.my_id.take() {
-          shared.unregister_async_send(id);
+          shared.abandon_async_send(id);
         }
         return Poll::Ready(Err(SendError::Closed));
       }
@@ -570,7 +570,7 @@ impl<'a, T: Send> Future for SendFuture<'a, T> {
 impl<'a, T: Send> Drop for SendFuture<'a, T> {
   fn drop(&mut self) {
     if let Some(id) = self.my_id.take() {
-      self.sender.shared.unregister_async_send(id);
+      self.sender.shared.abandon_async_send(id);
     }
   }
 }
@@ -604,7 +604,7 @@ impl<'a, T: Send> Future for BoundedSendBatchFuture<'a, T> {
 
       if this.sender.closed.load(Ordering::Relaxed) || !shared.receivers_alive() {
         if let Some(id) = this.my_id.take() {
-          shared.unregister_async_send(id);
+          shared.abandon_async_send(id);
         }
         return Poll::Ready(Err(SendBatchError {
           sent: this.sent,
@@ -637,7 +637,7 @@ impl<'a, T: Send> Future for BoundedSendBatchFuture<'a, T> {
 impl<'a, T: Send> Drop for BoundedSendBatchFuture<'a, T> {
   fn drop(&mut self) {
     if let Some(id) = self.my_id.take() {
-      self.sender.shared.unregister_async_send(id);
+      self.sender.shared.abandon_async_send(id);
     }
   }
 }
@@ -668,7 +668,7 @@ impl<'a, T: Send> Future for BoundedSendBatchMutFuture<'a, T> {
 
       if this.sender.closed.load(Ordering::Relaxed) || !shared.receivers_alive() {
         if let Some(id) = this.my_id.take() {
-          shared.unregister_async_send(id);
+          shared.abandon_async_send(id);
         }
         return Poll::Ready(Err(SendError::Closed));
       }
@@ -702,7 +702,7 @@ impl<'a, T: Send> Future for BoundedSendBatchMutFuture<'a, T> {
 impl<'a, T: Send> Drop for BoundedSendBatchMutFuture<'a, T> {
   fn drop(&mut self) {
     if let Some(id) = self.my_id.take() {
-      self.sender.shared.unregister_async_send(id);
+      self.sender.shared.abandon_async_send(id);
     }
   }
 }
